@@ -6,7 +6,7 @@ import copy
 RULE = ('python-random histories of ordinary traffic (names, match rules, calls, replies, signals, refused and undeliverable messages, '
         'connects and disconnects) in which 1-2 privileged connections become monitors at random points (while owning or queued for names, '
         'with calls outstanding) with empty or selective filters, and occasionally speak; every scenario is executed twice, with and without '
-        'the BecomeMonitor operations, and both traces must be behaviours of Bus.tla (in which a monitor only adds copies); '
+        'the BecomeMonitor operations, and both traces must be behaviours of Bus.tla (in which a monitor only adds copies); every eighth pair is a connection holding a mixture of owned and queued names, requested in any order, when it becomes a monitor; '
         'distinct = distinct scenario texts')
 W = {'req': 2, 'rel': 1, 'query': 0.4, 'addmatch': 1.5, 'rmmatch': 0.5, 'signal': 3, 'call': 3, 'reply': 2.5,
      'usignal': 1, 'close': 0.4, 'driver_other': 0.4, 'nodest': 0.2, 'monitor': 0.9}
@@ -51,6 +51,32 @@ def call_then_monitor(rng):
     return {'cfg': cfg or {}, 'rounds': rounds}
 
 
+def names_then_monitor(rng):
+    """the monitor-to-be holds a mixture of names -- primary for some, queued for others, requested in any order -- when it
+    becomes a monitor: every one of them is given up (owners change, queues shrink), calls to them no longer reach it, and
+    it inherits nothing when the others release later"""
+    names = ['com.example.A', 'com.example.B', 'com.example.C']
+    rounds = [{'ops': {'1': [{'k': 'connect', 'uid': 0}, {'k': 'hello'}, {'k': 'addmatch', 'rule': gen_bus.NOC_RULE}]}},
+              {'ops': {'3': [{'k': 'connect', 'uid': 0}, {'k': 'hello'}]}},
+              {'ops': {'2': [{'k': 'connect', 'uid': 0}, {'k': 'hello'}]}}]
+    theirs = rng.sample(names, rng.choice([1, 2]))         # names slot 3 owns first: slot 2 will be queued for them
+    rounds.append({'ops': {'3': [{'k': 'req', 'n': n, 'f': rng.choice([0, 1])} for n in theirs]}})
+    order = names[:]
+    rng.shuffle(order)
+    rounds.append({'ops': {'2': [{'k': 'req', 'n': n, 'f': rng.choice([0, 0, 1])} for n in order]}})
+    if rng.random() < 0.4:
+        rounds.append({'ops': {'4': [{'k': 'connect', 'uid': 0}, {'k': 'hello'}, {'k': 'req', 'n': rng.choice(names), 'f': 0}]}})
+    rounds.append({'ops': {'2': [{'k': 'monitor', 'rules': rng.choice([[], ["type='error'"], ["member='Nothing'"]]), 'flags': 0}]}})
+    probe = []
+    for n in names:
+        probe.append({'k': 'query', 'q': rng.choice(['owner', 'queued']), 'n': n})
+        probe.append({'k': 'send', 'ty': 1, 'dst': n, 'path': '/a', 'ifc': 'com.example.I', 'mem': 'Ma', 'sig': '', 'body': [], 'fl': 2})
+    rounds.append({'ops': {'1': probe}})
+    rounds.append({'ops': {'3': [{'k': 'rel', 'n': n} for n in theirs]}})
+    rounds.append({'ops': {'1': [{'k': 'query', 'q': 'list'}] + [{'k': 'query', 'q': 'owner', 'n': n} for n in names]}})
+    return {'cfg': {}, 'rounds': rounds}
+
+
 def gen(rng, i):
     if i % 2 == 1 and gen.last is not None:
         # the same history without monitors: BecomeMonitor ops (and what the monitor says afterwards) removed
@@ -73,6 +99,9 @@ def gen(rng, i):
         return scn
     if i % 8 == 6:
         gen.last = call_then_monitor(rng)
+        return gen.last
+    if i % 8 == 2:
+        gen.last = names_then_monitor(rng)
         return gen.last
     g = gen_bus.Gen(rng, nslots=4, nnames=2, w=W, eavesdrop=0.1, odd_rules=0.05,
                     cfg={'replyTimeoutMs': 300} if i % 6 == 4 else None)
